@@ -31,7 +31,7 @@ def store_rows(rows, storage, name, odf_features=None, sheet=1):
     else:
         import xlsxwriter
 
-        workbook = xlsxwriter.Workbook(path)
+        workbook = harness.new_workbook(path)
         for _ in range(sheet - 1):
             workbook.add_worksheet().write_string(0, 0, "filler")
         worksheet = workbook.add_worksheet()
